@@ -103,7 +103,23 @@ CHECKS = {
                 "GetShareableChainKey/IsChainKeyKnownForDevice reader, warm-up counter) x one goroutine schedule chosen at every "
                 "instrumented lock/unlock of pkg/secretstore and at every SimDisk read/write; non-trivial = at least one preemption; "
                 "distinct = distinct hash of the scheduler trace (task label and site per step).",
-        "required_probes": ["all_envelopes_opened"],
+        "required_probes": ["all_envelopes_opened", "lazy_chain_key_creation"],
         "assumptions": COMMON_ASSUMPTIONS + ["schedules are explored at the instrumented synchronisation points and datastore operations; code between two points runs atomically"],
+    },
+    "C04": {
+        "pkg": ".",
+        "test": "TestVerifC04",
+        "level": "exploration",
+        "proc_timeout": "60m",
+        "quick": {"seconds": 100, "checks_per_proc": 25},
+        "thorough": {"seconds": 1200, "checks_per_proc": 200},
+        "rule": "one case = 2-3 real replicas (devices of one account on the account group) performing up to 15 seeded metadata "
+                "operations (7 contact operations on 2 contacts, contact-request switch/seed, group join/leave, credentials) while the "
+                "simulator chooses every delivery among all in-flight head announcements / head exchanges / block fetches (reordering, "
+                "batching, drops, duplicates), partitions and heals, clean restarts and extra re-indexing; then anti-entropy to a "
+                "fixpoint. non-trivial = at least one network delivery happened under simulator control; distinct = distinct hash "
+                "of the event trace (operations, deliveries, faults in abstract names).",
+        "required_probes": ["causally_ordered_history", "concurrent_history", "reindex", "reopen_same_entries"],
+        "assumptions": COMMON_ASSUMPTIONS + ["each reaction of go-orbit-db/go-ipfs-log goroutines between two simulator events runs to quiescence (atomic step)"],
     },
 }
